@@ -2177,7 +2177,7 @@ namespace xsimd
         template <class A>
         XSIMD_INLINE void transpose(batch<int16_t, A>* matrix_begin, batch<int16_t, A>* matrix_end, requires_arch<avx512f>) noexcept
         {
-            return transpose(reinterpret_cast<batch<uint16_t, A>*>(matrix_begin), reinterpret_cast<batch<uint16_t, A>*>(matrix_end), A {});
+            detail::transpose_as<uint16_t>(matrix_begin, matrix_end);
         }
 
         template <class A>
@@ -2213,7 +2213,7 @@ namespace xsimd
         template <class A>
         XSIMD_INLINE void transpose(batch<int8_t, A>* matrix_begin, batch<int8_t, A>* matrix_end, requires_arch<avx512f>) noexcept
         {
-            return transpose(reinterpret_cast<batch<uint8_t, A>*>(matrix_begin), reinterpret_cast<batch<uint8_t, A>*>(matrix_end), A {});
+            detail::transpose_as<uint8_t>(matrix_begin, matrix_end);
         }
 
         // trunc
